@@ -14,7 +14,20 @@ ENGINES = [
 ]
 NOTES = 'All checks: bin/kv check <ID> --tier quick|thorough. Exit 0 pass, 1 reproduced violation, 2 inconclusive (timeout/OOM/compile error/non-reproducing counterexample). Scratch under /var/tmp is removed at exit.'
 NOT_APPLICABLE = {}
+HOOKS['source_commits'] = ['5ced590', '5aaf928']
+
+_T = 'Bounded model checking of the compiled crate (Kani front end, CBMC/CaDiCaL back end): each instance fixes a concrete shape (lengths, widths, counts) and the solver decides the assertions for ALL values of the symbolic contents and arguments; unwinding assertions guarantee the loop bounds suffice; counterexamples are replayed natively against /repo before being reported. '
+_N = 'Trusts Kani 0.68 codegen, CBMC 6.11, CaDiCaL; stubs and assumptions are listed in the evidence file; shapes outside the listed instances are not claimed.'
 CHECKS = {
+    'C01': {'text': _T + 'Plain bitvector: access/count for up to 130 bits, rank with the real RankSupport up to 1536 bits (index over all usize), select/select_zero/select_iter/predecessor/successor with the real SelectSupport (both superblock regimes) on vectors up to 12 bits.', 'note': _N + ' Select-type queries beyond 12 bits and more than one superblock are outside the bound.'},
+    'C02': {'text': _T + 'Elias-Fano vector built with the real builder from symbolic positions (universes from 0 to 2^64-1, up to 20 ones), every query with arguments over all usize, against the sorted position list.', 'note': _N + ' Embedded bitvector answered by specification stubs (verified separately in C01); parameter rule evaluated natively.'},
+    'C03': {'text': _T + 'Run-length vector assembled from document-conforming parts (hook), symbolic run payloads in concrete code-length classes incl. values >= 2^63 and a second block; every query over all usize against the run list.', 'note': _N + ' Builder/conversion construction is checked in C16/C11; more than 2 blocks outside the bound.'},
+    'C04': {'text': _T + 'Wavelet matrix / core assembled from document-defined parts (hooks) for symbolic items (len <= 6, width <= 4): access, rank, select, inverse_select, contains, value iterators, predecessor/successor, core map_down/map_down_with/map_up_with with (index, rank, value) over all usize/u64.', 'note': _N + ' WaveletMatrix::from(Vec<T>) construction is outside the claim (does not finish under CBMC).'},
+    'C05': {'text': _T + 'Inductive step: one arbitrary operation with arbitrary arguments from an arbitrary valid RawVector (every length 0..=192) / IntVector (every width 1..=64) state, compared word for word with a bit-sequence model together with the representation invariant; construction-route independence of ==, bytes and count_ones.', 'note': _N},
+    'C06': {'text': _T + 'serialize -> exact size -> load consumes exactly that -> equal value, for scalars, vectors, bytes, strings, options, raw/int vectors and concatenations, contents symbolic; size_by_params as full-width arithmetic.', 'note': _N + ' 256-byte buffers; ASCII strings.'},
+    'C09': {'text': _T + 'Out-of-range and extreme arguments (all usize) on plain bitvectors, their iterators (nth/nth_back after a consumed prefix), AccessIter, constructors and RLBuilder::try_set; the C02/C03/C04/C15 instances range over all usize as well.', 'note': _N},
+    'C14': {'text': _T + 'Every strict byte prefix (symbolic cut) of the serialization of each type/shape fails to load with Err; skip_option; failing sinks and buffered writers with a symbolic write budget.', 'note': _N},
+    'C15': {'text': _T + 'Multiset Elias-Fano vectors (duplicates, overfull) from symbolic non-decreasing values: count/select/rank/get/pred/succ/iterators with arguments over all usize; try_from_iter acceptance and universe.', 'note': _N + ' Embedded bitvector answered by specification stubs.'},
     'C17': {
         'text': 'Bounded model checking of the real bits:: functions at full 64-bit width: every (background, offset<192, width, value) for write_int/read_int, every (word, rank) for select, every argument in the documented domain for the masks/bit_len/reverse_low/rounding helpers. The solver decides all values inside these bounds; only array length (3 words) and the symbolic-divisor width of div_round_up are bounded.',
         'note': 'Trusts Kani codegen + CBMC + CaDiCaL; x86_64; BMI2 select path via the MIR->SMT engine with a PDEP model validated against the hardware instruction.',
